@@ -47,6 +47,12 @@ def run(ck):
                 m, s = p.value
                 am = it.get_attr(s, "rbm_am", None)
                 ck.check(isinstance(am, VObj) and am.inst is m.inst, "C20.R1", inst + ":uses the given module as amplitude network", isite, "rbm_am is not the user-supplied module")
+                # ... with its parameters as they are: construction writes none of them
+                mobjs = set(param_objs(it, m))
+                wr = [e for e in list(getattr(it, "ctor_effects", [])) + list(p.effects) if e.kind in ("write", "params") and (e.obj in mobjs or any(getattr(o_, "rebound_from", None) is e.obj for o_ in mobjs))]
+                ck.check(not wr, "C20.R1", inst + ":the given module's parameters are left as they are", wr[0].site if wr else isite,
+                         "constructing the state writes a parameter of the user-supplied module (%s): the amplitude network is no longer the RBM that was given, and the caller's module is changed"
+                         % (wr[0].detail if wr else ""), key="C20.R1|%s|module parameter written" % cls)
                 ck.ok("C20.R1", inst + ":constructible", isite)
                 for attr in ("num_visible", "num_hidden") + (("num_aux",) if cls == "DensityMatrix" else ()):
                     sv_, mv_ = s.inst.attrs.get(attr), m.inst.attrs.get(attr)
@@ -286,7 +292,7 @@ def run(ck):
                 return s, call(it, s, "gradient", tens(it, "S", ("B", "nv")), api.bases_arr(it, "bases", "B"))
 
             for p in [q for q in paths_of(prog, thz, sticky=True, max_paths=20, stubs={cls + ".rotated_gradient": stub_rotated}) if q.outcome == "return"]:
-                if some_selected(p, "NeuralStateBase.gradient") is not False:
+                if some_selected(p, "") is not False:
                     continue
                 n_ref += 1
                 items = p.interp.concrete_items(p.value[1])
